@@ -20,7 +20,7 @@ VARIABLES
   delivered,  \* tp -> set of offsets returned to some member's application
   fetched,    \* owner -> (tp -> committed offset the coordinator returned in its last OffsetFetch)
   stream,     \* <<m, ver>> -> (tp -> [start, hw, got])
-  pending,    \* m -> [msgs, acked] of the synchronous CommitMessages call in progress
+  pending,    \* <<m, call id>> -> [msgs, acked] of the CommitMessages calls in progress (call id 0 unless calls overlap)
   reading,    \* members inside ReadMessage
   closedAt,   \* m -> time Close returned
   joined,     \* owner -> member id of its last successful JoinGroup ("" none)
@@ -97,7 +97,7 @@ Coord(e) ==
          /\ committed' = [k \in DOMAIN committed \cup { TPKey(x) : x \in offs } |->
                              IF \E x \in offs : TPKey(x) = k THEN (CHOOSE x \in offs : TPKey(x) = k)[3] ELSE committed[k]]
          /\ pending' = [m \in DOMAIN pending |->
-                          IF OwnerOf(m) = owner
+                          IF OwnerOf(m[1]) = owner
                             THEN [pending[m] EXCEPT !.acked = [k \in DOMAIN pending[m].acked \cup { TPKey(x) : x \in offs } |->
                                       Max(Get(pending[m].acked, k, -1),
                                           IF \E x \in offs : TPKey(x) = k THEN (CHOOSE x \in offs : TPKey(x) = k)[3] ELSE -1)]]
@@ -208,12 +208,12 @@ Upd(e) ==
                                                  THEN (CHOOSE x \in { e.msgs[i] : i \in DOMAIN e.msgs } :
                                                           x[1] = k /\ \A y \in { e.msgs[i] : i \in DOMAIN e.msgs } : y[1] = k => y[2] <= x[2])[2]
                                                  ELSE -1)]
-         /\ pending' = Put(pending, e.m, [msgs |-> e.msgs, acked |-> <<>>])
+         /\ pending' = Put(pending, <<e.m, IF "cid" \in DOMAIN e THEN e.cid ELSE 0>>, [msgs |-> e.msgs, acked |-> <<>>])
          /\ UNCHANGED <<tid, cfg, stored, committed, delivered, fetched, stream, reading, closedAt, joined, left, faulted, gens, lastFail, closing, viol>>
     [] e.ev = "commit.return" ->
          /\ viol' = viol \cup
-              (IF e.sync /\ e.err = "" /\ e.m \in DOMAIN pending
-                    /\ \E i \in DOMAIN e.msgs : Get(pending[e.m].acked, e.msgs[i][1], -1) < e.msgs[i][2] + 1
+              (IF e.sync /\ e.err = "" /\ <<e.m, IF "cid" \in DOMAIN e THEN e.cid ELSE 0>> \in DOMAIN pending
+                    /\ \E i \in DOMAIN e.msgs : Get(pending[<<e.m, IF "cid" \in DOMAIN e THEN e.cid ELSE 0>>].acked, e.msgs[i][1], -1) < e.msgs[i][2] + 1
                  THEN {"C03_SyncAckRecorded"} ELSE {})
          /\ UNCHANGED <<tid, cfg, stored, committed, asked, delivered, fetched, stream, pending, reading, closedAt, joined, left, faulted, gens, lastFail, closing>>
     [] e.ev = "append" ->
